@@ -95,6 +95,7 @@ type FuncContract struct {
 	Pure        bool
 	Functional  bool
 	ForeignFuncs bool // function-typed results only touch foreign state when called
+	FreshResult  bool // the (pointer) result is a newly allocated object nobody else references
 	Trusted     bool
 	Extern      bool
 	InlineOnly  bool
@@ -500,7 +501,7 @@ func (p *parser) parsePrimary() Expr {
 
 var clauseKeywords = map[string]bool{
 	"func": true, "extern": true, "ensures_trusted": true, "props": true, "requires": true, "ensures": true, "modifies": true,
-	"pure": true, "functional": true, "foreignfuncs": true, "trusted": true, "loop": true, "call": true, "allowpanic": true, "mapaccess": true, "at": true, "forbid": true, "allocbound": true, "set": true,
+	"pure": true, "functional": true, "foreignfuncs": true, "fresh": true, "trusted": true, "loop": true, "call": true, "allowpanic": true, "mapaccess": true, "at": true, "forbid": true, "allocbound": true, "set": true,
 	"pred": true, "fn": true, "axiom": true, "lemma": true, "ghost": true, "abstract": true, "smtdef": true,
 	"mode": true, "inline": true, "nosafety": true, "replay": true, "const": true, "package": true,
 }
@@ -610,6 +611,8 @@ func parseSpecFile(path string) (*SpecFile, error) {
 			cur.Functional = true
 		case "foreignfuncs":
 			cur.ForeignFuncs = true
+		case "fresh":
+			cur.FreshResult = true
 		case "trusted":
 			cur.Trusted = true
 		case "inline":
